@@ -297,6 +297,81 @@ def _prune(state):
     return any(len(e[-1]) > LABCAP for e in state[4])
 
 
+TIER_LOOPS = ("delete-every-entry", "delete-labelled-a", "replace-by-relabelled", "insert-a-late-copy")
+
+
+def _tier_loop_body(t, e, body):
+    isI = t.tierType == constants.INTERVAL_TIER
+    if body == "delete-every-entry":
+        t.deleteEntry(e)
+    elif body == "delete-labelled-a":
+        if e[-1] == "a":
+            t.deleteEntry(e)
+    elif body == "replace-by-relabelled":
+        t.insertEntry(Interval(e[0], e[1], e[2] + "'") if isI else Point(e[0], e[1] + "'"), "replace", "silence")
+    elif body == "insert-a-late-copy":
+        t.insertEntry(Interval(e[0] + 10.0, e[1] + 10.0, e[2]) if isI else Point(e[0] + 10.0, e[1]), "error", "silence")
+
+
+def _check_tier_edit_while_iterating(case):
+    """insertEntry / deleteEntry issued from inside `for entry in tier:` (or over tier.entries): the loop runs over the entries the tier held when
+    it started, and the result is that of the same edits issued one after the other"""
+    state, body, how = case
+    ref = mk(state)
+    for e in tuple(ref.entries):
+        _tier_loop_body(ref, e, body)
+    t = mk(state)
+
+    def loop():
+        for e in (t if how == "iter" else t.entries):
+            _tier_loop_body(t, e, body)
+    st, r, _ = call(loop)
+    tag = f"tier {state}: `{body}` for every entry, issued inside a loop over {'the tier' if how == 'iter' else 'tier.entries'}"
+    if st == "exc":
+        return 1, "X", None, [Viol("edit-while-iterating-raised:" + type(r).__name__, f"{tag} raised {r!r}; tier now {canon(t)}")]
+    if canon(t) != canon(ref):
+        return 1, "!", None, [Viol("edit-while-iterating-differs", f"{tag}: {canon(t)}, the same edits one after the other give {canon(ref)}")]
+    return len(state[4]), "ok", (state[0], len(state[4]), body, how), []
+
+
+def _check_span_exact(case):
+    """an insertion that reaches beyond the span: the span afterwards is EXACTLY the hull of the old span and the new entry - the new bound
+    is the entry's own bound (copied), not a number computed from it (old + (end - old) differs from end in the last bit for some pairs)"""
+    side, old, new, mode = case
+    viols = []
+    for kind in ("I", "P"):
+        if side == "max":       # span [0, old], entry ending / lying at new > old
+            t = IT("t", [(0.0, old, "a")], 0.0, old) if kind == "I" else PT("t", [(old, "a")], 0.0, old)
+            e = Interval((old + new) / 2 if mode == "error" else old / 2, new, "n") if kind == "I" else Point(new, "n")
+            want = (0.0, new)
+        else:                   # span [old, 10], entry starting / lying at new < old
+            t = IT("t", [(old, 10.0, "a")], old, 10.0) if kind == "I" else PT("t", [(old, "a")], old, 10.0)
+            e = Interval(new, (old + new) / 2 if mode == "error" else (old + 10.0) / 2, "n") if kind == "I" else Point(new, "n")
+            want = (new, 10.0)
+        st, r, _ = call(t.insertEntry, e, mode, "silence")
+        if st == "exc":
+            viols.append(Viol("insert-raised:" + type(r).__name__, f"{kind} span {side} {old}: insertEntry({tuple(e)}, {mode!r}) raised {r!r}"))
+            continue
+        if (t.minTimestamp, t.maxTimestamp) != want:
+            viols.append(Viol("span-not-exactly-the-hull", f"{kind} tier spanning {'[0, %r]' % old if side == 'max' else '[%r, 10]' % old}: after insertEntry({tuple(e)}, "
+                                                           f"{mode!r}) the span is ({t.minTimestamp!r}, {t.maxTimestamp!r}), expected {want}"))
+        elif wellformed(t):
+            viols.append(Viol("ill-formed-after-insert", f"{kind} {side} {old} {new} {mode}: {wellformed(t)}"))
+    return 2, "ok", (side, mode), viols
+
+
+def _span_exact_cases(quick):
+    vals = [round(0.1 * k, 1) for k in range(1, 100)]
+    step = 1
+    for mode in ("error", "merge", "replace"):
+        for i, a in enumerate(vals):
+            for b in vals[i + 1:]:
+                if quick and mode != "error" and (int(round(a * 10)) + int(round(b * 10))) % 3:
+                    continue
+                yield ("max", a, b, mode)
+                yield ("min", b, a, mode)
+
+
 def parts(tier):
     quick = tier == "quick"
     grid = D.unit_grid(5)
@@ -396,6 +471,17 @@ def parts(tier):
     ps.append(InputPart("constructor-argument-independence", _shared_argument_cases, _check_shared_argument,
                         rule="two tiers constructed from ONE list object (items given as Interval / Point named tuples, plain tuples, lists) x every deleteEntry "
                              "and a set of insertEntry calls x 3 modes on the first tier: the second tier and the caller's list stay as they were", bounds={}))
+    ps.append(InputPart("edits-issued-while-iterating",
+                        lambda: ((st, b, h) for st in (seeds_iv + [("I", "t", 0.0, 4.0, ((0.0, 1.0, "a"), (1.0, 2.0, "a"), (2.0, 3.0, "b"), (3.0, 4.0, "a")))]
+                                                       + seeds_pt + [("P", "t", 0.0, 4.0, ((0.0, "a"), (1.0, "a"), (2.0, "b"), (3.0, "a")))])
+                                 for b in TIER_LOOPS for h in ("iter", "entries")),
+                        _check_tier_edit_while_iterating,
+                        rule="all seed tiers (and two 4-entry tiers) x %d loop bodies (delete / delete some / replace / insert per entry) x the loop written over "
+                             "the tier itself and over .entries: same result as the same edits issued one after the other" % len(TIER_LOOPS), bounds={}))
+    ps.append(InputPart("span-after-insert-exact-decimal-grid", lambda: _span_exact_cases(quick), _check_span_exact,
+                        rule="every ordered pair (old bound, new bound) of the one-decimal values 0.1 .. 9.9 (4851 pairs) x both ends of the span x "
+                             "interval and point tiers x collision modes: after an insertion reaching beyond the span, the span is exactly "
+                             "(bit for bit) the hull of the old span and the new entry, and the tier contains its entries", bounds={"values": 99}, chunk=64))
     from mc.props import live as _live_hist
     ps.append(_live_hist.history_part())
     return ps
